@@ -108,10 +108,13 @@ def slotted(  # noqa: C901
 
             # Pickle fix for frozen dataclass as mentioned in https://bugs.python.org/issue36424
             # Use only if __getstate__ and __setstate__ are not declared and frozen=True
-            if (
-                all(param not in cls_dict for param in ["__getstate__", "__setstate__"])
-                and cls.__dataclass_params__.frozen
-            ):
+            # (Hooks may be inherited: look along the MRO, `object` excluded.)
+            user_hooks = any(
+                param in vars(base)
+                for param in ["__getstate__", "__setstate__"]
+                for base in cls.__mro__[:-1]
+            )
+            if not user_hooks and cls.__dataclass_params__.frozen:
                 cls_dict["__setstate__"] = _slots_setstate
 
             # Prepare new class with slots
